@@ -44,7 +44,7 @@ theorem hists_length (v : Variant) (opts : List Opt) (h : Hists) (now : Int) (op
   | age i => simp [judgeStep, ageHists]
 
 /-- REFINEMENT, one op: whatever the state (within the invariant), the model's reaction to an op is
-    what the text prescribes for the configuration — in the `code` reading of the two clauses the code
+    what the text prescribes for the configuration — in the `code` reading of the clause the code
     deviates on — and the invariant is kept.  Covers: lookup order type → any-error → suspend; the
     dispatch on the directive; sibling groups under one-for-all; the budget decision; Resume keeping the
     state; later messages handled (ping); Reinstate. -/
@@ -169,13 +169,13 @@ theorem C07_escalate_goes_to_parent :
     let f := (step (Family.init [.directive tyA dEscalate] 1) (.fail 0 .A)).1
     f.pSig = [0] ∧ f.gSig = [] := by decide
 
-/-- finding C07-F2: under one-for-all + Restart, the second failure of child 0 restarts the running
-    sibling 1 a second time and its restart count is 1 again (reset by the embedded shutdown), not 2 -/
-theorem C07_sibling_restart_count_reset :
+/-- formerly finding C07-F2 (repaired by fix 6e40710): under one-for-all + Restart, the second failure of
+    child 0 restarts the running sibling 1 a second time and its restart count is now 2 -/
+theorem C07_sibling_restart_count_bumped :
     let opts := [Opt.strategy .oneForAll, .directive tyA dRestart]
     let f1 := (step (Family.init opts 2) (.fail 0 .A)).1
     let f2 := (step f1 (.fail 0 .A)).1
-    (f1.cs.map (·.rc)) = [1, 1] ∧ (f2.cs.map (·.rc)) = [2, 1] ∧ (f2.cs.map (·.pre)) = [3, 3] := by decide
+    (f1.cs.map (·.rc)) = [1, 1] ∧ (f2.cs.map (·.rc)) = [2, 2] ∧ (f2.cs.map (·.pre)) = [3, 3] := by decide
 
 /-- the current code does not satisfy the text -/
 theorem C07_refuted : ¬ C07_full := by
@@ -224,33 +224,13 @@ theorem text_of_code_of_guard (opts : List Opt) (h : Hists) (now : Int) (op : Op
     cases e with
     | escalate => simp at hg
     | restart =>
-      simp only [List.all_eq_true, List.mem_range] at hg
       unfold check at hchk ⊢
       rw [Bool.and_eq_true] at hchk ⊢
       refine ⟨?_, by simpa [checkSignals] using hchk.2⟩
       unfold checkChildren at hchk ⊢
       apply allIdx_mono _ _ _ _ _ hchk.1
-      intro j bj aj hj hb _ hP
-      have hgj := hg j hj
-      rw [hb] at hgj
-      simp only [checkChild] at hP ⊢
-      cases hgrp : groupFor .restart (newSupervisor opts).strategy b i j with
-      | false => rw [hgrp] at hP; simpa [hgrp] using hP
-      | true =>
-        rw [hgrp] at hP
-        have hgrp' : group (newSupervisor opts).strategy b i j = true := hgrp
-        simp only [hgrp', Bool.not_true, Bool.or_false] at hgj
-        simp only [Bool.not_true, Bool.false_eq_true, if_false, Bool.and_eq_true] at hP ⊢
-        refine ⟨hP.1, ?_⟩
-        have hrc := hP.2
-        by_cases hji : (j == i) = true
-        · simpa [hji] using hrc
-        · have hji' : (j == i) = false := by simpa using hji
-          simp only [hji', Bool.false_or, Bool.or_eq_true, Bool.not_eq_true', beq_iff_eq] at hgj
-          simp only [hji', Bool.not_false] at hrc
-          rcases hgj with hna | h0
-          · simpa [hna] using hrc
-          · cases hal : bj.alive <;> simp_all
+      intro j bj aj _ _ _ hP
+      simpa [checkChild] using hP
     | dead => exact hchk
     | ignored => exact hchk
     | suspendOnly => exact hchk
@@ -281,9 +261,8 @@ theorem judgeRunWith_guarded (opts : List Opt) (ops : List Op) (h : Hists) (now 
         exact ih _ _ _ _ hc.2
 
 /-- C07 restricted by the decidable per-step guard `stepGuard`: every step whose configured directive
-    is not Escalate, and which does not restart a group containing a running sibling that was already
-    restarted before, behaves exactly as the text says.  (What the guard excludes is what the two
-    findings describe; `run_refines_code` says what the code does there.) -/
+    is not Escalate behaves exactly as the text says.  (What the guard excludes is what finding C07-F1
+    describes; `run_refines_code` says what the code does there.) -/
 def C07_guarded : Prop :=
   ∀ (opts : List Opt) (n : Nat) (ops : List Op), validOps n ops →
     judgeRunWith (judgeStepGuarded opts) (List.replicate n []) clock0 ops (Family.init opts n).obs
@@ -314,11 +293,11 @@ example :
          [(true, false, 2, 1), (true, false, 2, 1)], [(true, false, 2, 1), (true, false, 2, 1)],
          [(false, true, 2, 1), (false, true, 2, 1)], [(false, true, 2, 1), (false, true, 2, 1)]] := by decide
 
-/-- ... and a script on which the guard rejects a step (the second group restart of a running sibling) -/
+/-- ... and a script on which the guard rejects a step (an Escalate directive) -/
 example :
-    let opts := [Opt.strategy .oneForAll, .directive tyA dRestart]
-    let ops := [Op.fail 0 .A, .fail 0 .A]
-    guardTrace opts (List.replicate 2 []) clock0 ops (Family.init opts 2).obs (obsRun (Family.init opts 2) ops)
+    let opts := [Opt.directive tyA dEscalate]
+    let ops := [Op.ping 0, .fail 0 .A]
+    guardTrace opts (List.replicate 1 []) clock0 ops (Family.init opts 1).obs (obsRun (Family.init opts 1) ops)
       = [true, false] := by decide
 
 /-- non-vacuity of the invariant used by `step_refines_code`: it holds initially for every configuration
